@@ -1040,8 +1040,10 @@ def search_scenario(ck, rec, root, cap, max_points, report):
             shutil.rmtree(imgdir, ignore_errors=True)
             pool.materialise(img, imgdir)
             probs = check_store(imgdir, o.ctx)
-            # whether later writes work depends on WHICH names the crash left (and on the pack), not on other contents
-            wsig = (tuple(sorted(img)), img.get('packs/jugpack'))
+            # whether later writes work depends on WHICH temp / lock files the crash left, on whether the keys written
+            # again have a file, and on the pack - not on the other contents
+            wsig = (tuple(sorted(n for n in img if n.split('/')[0] in NONFINAL_DIRS)),
+                    tuple(fname_of(k) in img for k in wkeys), img.get('packs/jugpack'))
             if wsig not in seen_w:
                 seen_w.add(wsig)
                 stats['writable'] += 1
